@@ -54,36 +54,36 @@ def target_dir(mode):
     return os.path.join(TARGET, "native" if mode in ("native", "wrap", "debug0") else mode)
 
 
-def build(mode):
-    """Build one mode under an exclusive lock. Returns (ok, message)."""
+def build(mode, bin="lruverif"):
+    """Build one binary in one mode under an exclusive lock. Returns (ok, message)."""
     os.makedirs(TARGET, exist_ok=True)
     with open(os.path.join(TARGET, ".lock-" + ("native" if mode in ("native", "wrap", "debug0") else mode)), "w") as lk:
         fcntl.flock(lk, fcntl.LOCK_EX)
         t0 = time.time()
         if mode == "miri":
-            cmd = ["cargo", "+nightly", "miri", "run", "--offline", "--features", "noarena", "--target-dir", target_dir("miri"), "--", "selfcheck"]
+            cmd = ["cargo", "+nightly", "miri", "run", "--offline", "--bin", "lruverif", "--features", "noarena", "--target-dir", target_dir("miri"), "--", "selfcheck"]
             env = dict(ENV_BASE, MIRIFLAGS=MIRI_FLAGS)
         else:
             args, extra, _ = MODES[mode]
-            cargo = ["cargo"] + args + ["--target-dir", target_dir(mode)]
+            cargo = ["cargo"] + args + ["--bin", bin, "--target-dir", target_dir(mode)]
             cmd, env = cargo, dict(ENV_BASE, **extra)
         p = subprocess.run(cmd, cwd=HARNESS, env=env, stdout=subprocess.PIPE, stderr=subprocess.STDOUT, text=True)
         if p.returncode != 0:
             return False, "build of mode %s failed:\n%s" % (mode, p.stdout[-4000:])
-        log("[build] %s ok in %.1fs" % (mode, time.time() - t0))
+        log("[build] %s/%s ok in %.1fs" % (mode, bin, time.time() - t0))
         return True, ""
 
 
-def command_for(mode, argv):
+def command_for(mode, argv, bin="lruverif"):
     if mode == "miri":
-        return (["cargo", "+nightly", "miri", "run", "--offline", "--features", "noarena", "--target-dir", target_dir("miri"), "--"] + argv,
+        return (["cargo", "+nightly", "miri", "run", "--offline", "--bin", "lruverif", "--features", "noarena", "--target-dir", target_dir("miri"), "--"] + argv,
                 dict(ENV_BASE, MIRIFLAGS=MIRI_FLAGS))
     env = dict(ENV_BASE)
     if mode == "asan":
         env["ASAN_OPTIONS"] = "halt_on_error=1:abort_on_error=0:detect_leaks=1:exitcode=99:allocator_may_return_null=1"
     if mode == "tsan":
         env["TSAN_OPTIONS"] = "halt_on_error=1:exitcode=66"
-    return [os.path.join(TARGET, MODES[mode][2])] + argv, env
+    return [os.path.join(TARGET, MODES[mode][2].replace("lruverif", bin))] + argv, env
 
 
 # ---------------------------------------------------------------------------------- running shards
@@ -123,7 +123,7 @@ def run_shard_once(job, shard, seed, tier, extra_miri):
     if budget is not None:
         argv += ["--" + job.get("budget_arg", "events"), str(budget)]
     env_extra = job.get("env", {})
-    cmd, env = command_for(mode, argv)
+    cmd, env = command_for(mode, argv, job.get("bin", "lruverif"))
     env.update(env_extra)
     if mode == "asan" and job.get("asan_options"):
         env["ASAN_OPTIONS"] = job["asan_options"]
@@ -198,11 +198,11 @@ def run_check(prop, tier, seed):
     t0 = time.time()
     plan = PLANS[prop]
     jobs = [j for j in plan if tier in j.get("tiers", ("quick", "thorough"))]
-    modes = sorted(set(j["mode"] for j in jobs))
+    modes = sorted(set((j["mode"], j.get("bin", "lruverif")) for j in jobs))
     os.makedirs(EVID, exist_ok=True)
     os.makedirs(REPLAYS, exist_ok=True)
-    for m in modes:
-        ok, msg = build(m)
+    for m, b in modes:
+        ok, msg = build(m, b)
         if not ok:
             log(msg)
             return finish(prop, tier, seed, t0, None, [], [], "build failed for mode %s" % m, {})
@@ -405,7 +405,9 @@ def replay(path):
     with open(path) as f:
         rec = json.load(f)
     mode = rec.get("mode", "native")
-    ok, msg = build(mode)
+    a0 = rec.get("argv", [""])[0]
+    bin = "lruverif_tot" if a0 == "memsize_total" else "lruverif_ms" if a0 == "memsize" else "lruverif"
+    ok, msg = build(mode, bin)
     if not ok:
         log(msg)
         print("INCONCLUSIVE property=%s reason=build failed" % rec.get("property"))
@@ -424,8 +426,7 @@ def replay(path):
         argv = ["replay_inject", "--file", fn]
     else:
         argv = rec["argv"]
-    job = {"mode": mode, "cmd": argv[0], "args": argv[1:], "shards": 1, "budget": None}
-    cmd, env = command_for(mode, argv)
+    cmd, env = command_for(mode, argv, bin)
     p = subprocess.run(cmd, cwd=HARNESS, env=env, stdout=subprocess.PIPE, stderr=subprocess.PIPE, text=True, errors="replace")
     res = None
     for line in p.stdout.splitlines():
@@ -453,8 +454,8 @@ def main():
     cmd = sys.argv[1]
     if cmd == "setup":
         rc = 0
-        for m in ["native", "wrap", "debug0", "asan", "miri"]:
-            ok, msg = build(m)
+        for m, b in [("native", "lruverif"), ("wrap", "lruverif"), ("asan", "lruverif"), ("miri", "lruverif"), ("debug0", "lruverif_ms"), ("debug0", "lruverif_tot"), ("native", "lruverif_tot")]:
+            ok, msg = build(m, b)
             if not ok:
                 log(msg)
                 rc = 1
